@@ -1,6 +1,6 @@
 """C04 x86-64 JIT-compiled programs behave exactly like interpreted programs."""
 import astq
-from rules import aes, genreset, jit, sshash, vmcfg
+from rules import aes, genreset, jit, sshash, vmcfg, x86hsem
 
 LEVEL = 'other'
 TECHNIQUE = 'sibling agreement between the x86 emitters and the interpreter decoder on resolved-AST feature vectors, known-bits on branch constants, decoding of byte templates, assembled-fragment constants'
@@ -28,3 +28,4 @@ def run(ctx, R):
     aes.rule_asm(ctx, R, FI)
     vmcfg.rule_compose(ctx, R, FI)
     genreset.rule_gen_reset(ctx, R, 'x86')
+    x86hsem.rule_hsem(ctx, R)
